@@ -210,6 +210,12 @@ where
     let mut a = mk();
     let _ = a.next();
     cx.check(format!("{}.next() then count()", what), a.count(), n.saturating_sub(1));
+    // the generic conformance walk (every provided method, also on iterators already advanced from either end)
+    let f2 = |x: I::Item| f(x);
+    let res = crate::util::itercheck::forward(what, r, &mk, &f2, model).and_then(|_| crate::util::itercheck::double_ended(what, r, &mk, &f2, model));
+    if let Err(e) = res {
+        cx.check(e, false, true);
+    }
 }
 
 fn response_history(r: &mut Rng, real: &Response, frames: &[DFrame], error: &Option<AError>, cx: &mut Ctx<'_>) {
